@@ -29,6 +29,8 @@ def collect(args):
             mf = os.path.join(d, "meta.json")
             if os.path.exists(pf) and os.path.exists(mf):
                 meta = json.load(open(mf))
+                if args.round and str(meta.get("round", "")) not in args.round.split(","):
+                    continue
                 items.append({"name": "seeded/" + os.path.basename(d), "patch": pf, "property": meta["property"],
                               "also": meta.get("also_checked_by", [])})
     if args.mutants:
@@ -83,6 +85,7 @@ def main():
     ap.add_argument("--mutants", action="store_true")
     ap.add_argument("--only", default=None)
     ap.add_argument("--tier", default="quick")
+    ap.add_argument("--round", default="", help="comma separated seeded rounds (meta.json 'round') to restrict --seeded to")
     ap.add_argument("--also", default="", help="comma separated extra properties to run on every patch")
     a = ap.parse_args()
     if not (a.seeded or a.mutants):
